@@ -5,7 +5,7 @@ import Mdsort.Proofs.WorldFrameMain
 # A whole walk and a whole run (maildir mode) under EVERY fault plan: no registered message is lost
 
 `WholeVersion env orc exprs c c'`: `c'` is `c` after zero or more complete rewrites (`wholeRewrite`)
-by the rules of `exprs`.  `WholeSafe … c w`: some entry of `w` is bound to a file whose visible and
+by the rules of `exprs`, each for some answers of the operating system to the questions of evaluation.  `WholeSafe … c w`: some entry of `w` is bound to a file whose visible and
 durable contents are versions of `c`.  The loop invariant (`WholeInv`) says that the registry of the
 main loop is consistent with the world (`WholeReg`) and still holds a version of every message that
 was registered at the start.
@@ -20,8 +20,8 @@ open Mdsort.Proofs.World (wp wp_mono wp_inv_mono wp_bind_mono wp_call_any WholeK
 
 inductive WholeVersion (env : PEnv) (orc : EvalOracles) (exprs : List Expr) : Bytes → Bytes → Prop
   | refl (c : Bytes) : WholeVersion env orc exprs c c
-  | step {c c1 : Bytes} (expr : Expr) (dir name : Bytes) : WholeVersion env orc exprs c c1 → expr ∈ exprs →
-      WholeVersion env orc exprs c (wholeRewrite env orc expr dir name c1)
+  | step {c c1 : Bytes} (expr : Expr) (dir name : Bytes) (as : List SysAns) : WholeVersion env orc exprs c c1 → expr ∈ exprs →
+      WholeVersion env orc exprs c (wholeRewrite env orc expr dir name c1 as)
 
 /-- Some entry is bound to a file whose visible and durable contents are both versions of `c`. -/
 def WholeSafe (env : PEnv) (orc : EvalOracles) (exprs : List Expr) (c : Bytes) (w : World) : Prop :=
@@ -159,21 +159,21 @@ theorem WholeVersion.trans {env : PEnv} {orc : EvalOracles} {exprs : List Expr} 
     (h1 : WholeVersion env orc exprs a b) (h2 : WholeVersion env orc exprs b c) : WholeVersion env orc exprs a c := by
   induction h2 with
   | refl => exact h1
-  | step expr dir name _ hm ih => exact .step expr dir name ih hm
+  | step expr dir name as _ hm ih => exact .step expr dir name as ih hm
 
 theorem WholeVersion.mono {env : PEnv} {orc : EvalOracles} {exprs exprs' : List Expr} {a b : Bytes}
     (h : WholeVersion env orc exprs a b) (hs : ∀ e ∈ exprs, e ∈ exprs') : WholeVersion env orc exprs' a b := by
   induction h with
   | refl => exact .refl _
-  | step expr dir name _ hm ih => exact .step expr dir name ih (hs _ hm)
+  | step expr dir name as _ hm ih => exact .step expr dir name as ih (hs _ hm)
 
 /-- The invariant of `processMessage` implies that every tracked message is safe. -/
 theorem whole_allSafe_of_pmi {env : PEnv} {orc : EvalOracles} {exprs : List Expr} {files0 : Files} {expr : Expr}
     (hmem : expr ∈ exprs) {w1 w' : World} {st : MainSt} {md : Maildir} {n content : Bytes}
     (hinv : WholeInv env orc exprs files0 w1 st) (hfc : st.files.get md.path n = some content)
-    (h : WholePMI w1 (md.path, n) [content, wholeRewrite env orc expr md.path n content] w') :
+    (h : WholePMIA env orc expr w1 md.path n content w') :
     WholeAllSafe env orc exprs files0 w' := by
-  obtain ⟨k, hgood⟩ := h
+  obtain ⟨as, k, hgood⟩ := h
   intro dir nm c hc
   obtain ⟨dir', nm', c', hc', hv⟩ := hinv.track dir nm c hc
   by_cases h0 : dir' = md.path ∧ nm' = n
@@ -181,12 +181,12 @@ theorem whole_allSafe_of_pmi {env : PEnv} {orc : EvalOracles} {exprs : List Expr
       rw [h0.1, h0.2, hfc] at hc'; cases hc'; rfl
     rw [hcc] at hv
     obtain ⟨p, q, fid, hl, hlt, f, hf, hdat, hdur⟩ := hgood
-    have ver : ∀ x, x ∈ [content, wholeRewrite env orc expr md.path n content] → WholeVersion env orc exprs c x := by
+    have ver : ∀ x, x ∈ [content, wholeRewrite env orc expr md.path n content as] → WholeVersion env orc exprs c x := by
       intro x hx
       simp only [List.mem_cons, List.mem_nil_iff, or_false] at hx
       rcases hx with rfl | rfl
       · exact hv
-      · exact .step expr md.path n hv hmem
+      · exact .step expr md.path n as hv hmem
     exact ⟨p, q, fid, f, hl, hlt, hf, ver _ hdat, ver _ hdur⟩
   · obtain ⟨fid, h1, h2, h3⟩ := hinv.reg dir' nm' c' hc'
     have hne : (dir', nm') ≠ (md.path, n) := by
@@ -202,7 +202,7 @@ theorem whole_walk (env : PEnv) (orc : EvalOracles) (expr : Expr) (exprs : List 
       wp (WholeAllSafe env orc exprs files0) (walk env orc expr fuel md st)
         (fun r w' => WholeInv env orc exprs files0 w' r.1 ∧ WholeMdOk w' r.2) w := by
   induction fuel with
-  | zero => intro md st w hinv hmd; exact ⟨hinv, hmd⟩
+  | zero => intro md st w hinv hmd; exact ⟨⟨hinv.reg, hinv.track⟩, hmd⟩
   | succ fuel ih =>
     intro md st w hinv hmd
     rw [Own.walk_succ]
@@ -248,9 +248,9 @@ theorem whole_walk (env : PEnv) (orc : EvalOracles) (expr : Expr) (exprs : List 
               obtain ⟨dir', nm', c', hc', hv⟩ := hinv1.track dir nm c hc
               obtain ⟨dir'', nm'', c'', hc'', hcase⟩ := hrel dir' nm' c' hc'
               refine ⟨dir'', nm'', c'', hc'', ?_⟩
-              rcases hcase with rfl | rfl
+              rcases hcase with rfl | ⟨as, rfl⟩
               · exact hv
-              · exact .step expr dir' nm' hv hmem
+              · exact .step expr dir' nm' as hv hmem
             · intro d' hd'
               have hp1 := hmd1.1 d' hd'
               exact k.dirPath hp1 (World.lt_of_dirPath hp1)
